@@ -37,6 +37,9 @@ class Extract:
         self.external_body = False  # emit signature+contract only (callee represented by contract)
         self.drop_fields = []
         self.derives = []
+        self.anchor = None
+        self.params = None
+        self.no_release_variant = False
         self.cut_after = None
         self.attrs = []
         # outputs
@@ -122,6 +125,12 @@ def parse(template_text):
                             ex.cfg = v
                         elif k == 'props':
                             ex.props = v.split()
+                        elif k == 'anchor':
+                            ex.anchor = v.strip('`')
+                        elif k == 'params':
+                            ex.params = v.strip('`')
+                        elif k == 'no_release_variant':
+                            ex.no_release_variant = True
                         elif k == 'external_body':
                             ex.external_body = True
                         elif k == 'derives':
@@ -166,6 +175,14 @@ def _apply_rules(ex, text, fired):
             try:
                 text, n = rules.apply_literal(text, pat, rep, None, is_re)
             except AnchorLost:
+                n = 0
+        elif ex.id.endswith('@release'):
+            # auto-generated release variant: a rewrite that targets debug-only code has nothing to do there
+            try:
+                text, n = rules.apply_literal(text, pat, rep, cnt, is_re)
+            except AnchorLost:
+                if mask(text).count(pat) if not is_re else re.search(pat, mask(text)):
+                    raise
                 n = 0
         else:
             text, n = rules.apply_literal(text, pat, rep, cnt, is_re)
@@ -216,6 +233,27 @@ def expand_extract(ex, canary=False):
     sig = src[loc['start']:loc['body_open']].rstrip()
     body = src[loc['body_open']:loc['body_close'] + 1]
     orig = sig + ' ' + body
+    if ex.kind == 'closure':
+        # a closure literal inside fn `name`, located by `anchor` (regex, group 1 = the closure text `|params| body`),
+        # emitted as a named fn with the same parameter patterns and the same body.
+        bm = mask(body)
+        hits = list(re.finditer(ex.anchor, bm))
+        if len(hits) != 1:
+            raise AnchorLost('%s: closure anchor matched %d times in fn %s' % (ex.id, len(hits), ex.name))
+        ctext = body[hits[0].start(1):hits[0].end(1)]
+        cm = mask(ctext)
+        if not cm.startswith('|'):
+            raise AnchorLost('%s: anchored text is not a closure: %r' % (ex.id, ctext[:40]))
+        bar = cm.index('|', 1)
+        params = rsrc.norm(ctext[1:bar])
+        if ex.params is not None and rsrc.norm(ex.params) != params:
+            raise AnchorLost('%s: closure parameters changed: %r (contract written for %r)' % (ex.id, params, ex.params))
+        cbody = ctext[bar + 1:].strip()
+        sig = '|' + ctext[1:bar] + '|'
+        pats = [x.strip() for x in rsrc.split_top_commas((ctext[1:bar], cm[1:bar])) if x.strip()]
+        lets = ' '.join('let %s = vx_p%d;' % (pt, i) for i, pt in enumerate(pats))
+        body = '{ ' + lets + ' ' + cbody + ' }'
+        orig = ctext
     n_loops_orig = len(rsrc.loops(body))
     text = body
     text, n = rules.strip_attrs(text)
@@ -243,11 +281,19 @@ def expand_extract(ex, canary=False):
     text, n = rules.r7_loop_value(text)
     if n:
         fired.append('R7b loop-value x%d' % n)
+    text, n = rules.r7_eta_constructor(text)
+    if n:
+        fired.append('R7d eta-expanded constructor x%d' % n)
+    text, n = rules.r7_closure_tuple_param(text)
+    if n:
+        fired.append('R7c closure tuple parameter x%d' % n)
     text = _apply_rules(ex, text, fired)
     # loop annotations
     lps = rsrc.loops(text)
     for ordinal in sorted(ex.loops, reverse=True):
         if ordinal >= len(lps):
+            if ex.id.endswith('@release'):
+                continue   # the loop was debug-only
             raise AnchorLost('%s: loop #%d not found (%d loops in extracted body)' % (ex.id, ordinal, len(lps)))
         kw, bo = lps[ordinal]
         text = text[:bo] + '\n' + ex.loops[ordinal].rstrip('\n') + '\n' + text[bo:]
@@ -273,7 +319,7 @@ def expand_extract(ex, canary=False):
             twin = tsig + '\n' + canary_contract(contract) + text + '\n'
         for a in ex.attrs:
             twin = a + '\n' + twin
-    ex.meta = dict(id=ex.id, kind='fn', file=ex.file, line=rsrc.line_of(src, loc['start']),
+    ex.meta = dict(id=ex.id, kind='fn', closure=(ex.kind == 'closure'), file=ex.file, line=rsrc.line_of(src, loc['start']),
                    end_line=rsrc.line_of(src, loc['body_close']),
                    sha256=hashlib.sha256(orig.encode()).hexdigest(), rules=fired,
                    n_loops=n_loops_orig, orig=orig, emitted=emitted, orig_sig=rsrc.norm(sig),
@@ -414,6 +460,31 @@ def generate(template_text, canary=False):
                 twins.append(dict(id=ex.id, gen_start=out_lines + 1, gen_end=out_lines + tw.count('\n') + 1))
                 out.append(tw)
                 out_lines += tw.count('\n') + 1
+            if (ex.kind in ('fn', 'closure') and ex.cfg == 'debug' and not ex.external_body and not ex.no_release_variant
+                    and re.search(r'\bdebug_assert|cfg\(\s*(not\()?\s*debug_assertions', mask(ex.meta['orig']))):
+                # the same body as rustc compiles it with debug assertions off: debug_assert!s and cfg(debug_assertions)
+                # items erased.  Emitted next to the debug variant under the same contract, so both build
+                # configurations generate obligations.
+                import copy
+                ex2 = copy.copy(ex)
+                ex2.cfg = 'release'
+                ex2.id = ex.id + '@release'
+                src_sig = ex.as_sig if ex.as_sig else ex.meta['emitted'].split('\n')[0]
+                ex2.as_sig = re.sub(r'\bfn\s+(\w+)', lambda q: 'fn ' + q.group(1) + '__release', src_sig, count=1)
+                ex2.meta = {}
+                em2 = expand_extract(ex2, canary).rstrip('\n')
+                meta2 = dict(ex2.meta)
+                meta2['gen_start'] = out_lines + 1
+                meta2['gen_end'] = out_lines + em2.count('\n') + 1
+                meta2['props'] = ex.props
+                extracts.append(meta2)
+                out.append(em2)
+                out_lines += em2.count('\n') + 1
+                if canary and meta2.get('twin'):
+                    tw = meta2['twin'].rstrip('\n')
+                    twins.append(dict(id=ex2.id, gen_start=out_lines + 1, gen_end=out_lines + tw.count('\n') + 1))
+                    out.append(tw)
+                    out_lines += tw.count('\n') + 1
     return '\n'.join(out) + '\n', dict(extracts=extracts, lemmas=lemmas, trusted=trusted, twins=twins)
 
 
